@@ -3,8 +3,8 @@
    EVERY x in dom, the checked-access run f x is neither Crash (an index/slice
    out of range or an explicit panic) nor Hang (fuel = one unit per loop
    iteration, len+1 given). *)
-From V Require Import Common.Base C16.Checked C16.Spec C16.Wtf8 C16.Vlq16 C16.CssNum C16.Pieces C16.Packet C16.CssIdent C16.JsxEntities C16.CssLex
-  C16.Proofs C16.Vlq16Proofs C16.PanicSites C16.DecodeLoops.
+From V Require Import Common.Base C16.Checked C16.Spec C16.Wtf8 C16.Vlq16 C16.CssNum C16.Pieces C16.Packet C16.CssIdent C16.JsxEntities C16.CssLex C16.Globstar
+  C16.Proofs C16.Vlq16Proofs C16.GlobstarProofs C16.PanicSites C16.DecodeLoops.
 From V Require Import gen.PanicSitesGen gen.DecodeLoopsGen.
 From Coq Require Import String.
 
@@ -191,3 +191,18 @@ Theorem every_service_goroutine_recovers_refuted :
   forallb (fun s => Nat.eqb (sp_recover s) 0) service_spawn_sites = true.
 Proof. exact service_goroutines_none_recovers. Qed.
 Print Assumptions every_service_goroutine_recovers_refuted.
+
+(* resolver.globstarToEscapedRegexp (package.json "sideEffects" globs -> the pattern given to
+   regexp.MustCompile): for EVERY byte string the run returns, and the pattern is ^ item* $ where every
+   item is an escaped special byte, '.', [^/]*, (?:[^/]*(?:/|$))* or a literal byte that is not special
+   in RE2 - balanced and fully escaped.  (Bytes >= 0x80 are copied unchanged: the pattern is valid UTF-8
+   only if the glob is - finding C16-regexp-invalid-utf8.) *)
+Theorem globstar_regexp_wellformed : forall glob, exists p h, globstarToEscapedRegexp glob = Ok (p, h) /\ wf_pattern p.
+Proof. exact globstar_wellformed. Qed.
+Print Assumptions globstar_regexp_wellformed.
+
+(* T8: every regexp.MustCompile whose argument is not a string literal is one of the two pinned resolver sites *)
+Theorem mustcompile_sites_are_exactly : forall s, In s regexp_sites ->
+  re_must s = true -> re_const s = false -> allowed_mustcompile s = true.
+Proof. exact mustcompile_sites_all. Qed.
+Print Assumptions mustcompile_sites_are_exactly.
